@@ -194,13 +194,14 @@ theorem references_exact_own_tree (wsView : Option (Resolved × Path)) (wsOwn : 
   simp only [serverRequest, hc]
   exact references_exact wsOwn hwf hf wsOwn.root (by simp [Workspace.files]) hsep hnames order pos incl l
 
-/-! ### The workspace follows the buffers (`didopen-stale-workspace`, repaired) -/
+/-! ### The workspace follows the buffers (`didopen-stale-workspace`, `didclose-stale-workspace`, repaired) -/
 
 open HL.Workspace HL.WsDocs HL.Lemmas.WsDocs HL.Lemmas.Update in
 /-- **workspace_follows_buffers.**  A directory `fs` (at most `MaxIncludeDepth` files),
-    `Initialize`, then ANY history of didOpen / didChange / didSave notifications on files of the
-    client's view that keep their include lists (`calm`; opening a file with a text that differs
-    from the file on disk included): the workspace satisfies its invariant with respect to what
+    `Initialize`, then ANY history of didOpen / didChange / didSave / didClose notifications on
+    files of the client's view that keep their include lists (`calm`; opening a file with a text
+    that differs from the file on disk and closing one with unsaved edits included): the
+    workspace satisfies its invariant with respect to what
     the CLIENT sees (`view`: the buffer of every open document, the file on disk otherwise).
     Hence the member files are those reachable in the client's view, and for every member file
     the tree the resolved journal holds — the one references, rename and hover read — is that
@@ -208,7 +209,7 @@ open HL.Workspace HL.WsDocs HL.Lemmas.WsDocs HL.Lemmas.Update in
 theorem workspace_follows_buffers (cfg : Cfg) (fs : FS) (es : List Ev)
     (hok : HL.Spec.Rebuild.fsOk fs = true) (hne : fs ≠ []) (hclean : HL.Lemmas.Init.graphsClean cfg fs)
     (hlim : fs.length ≤ cfg.limit) (hcalm : calm cfg (dstart cfg fs) es) :
-    let s := drun true cfg fs es
+    let s := drun {} cfg fs es
     (∀ p c, s.bufs.get p = some c → s.view.get p = some c) ∧
     (∀ p, s.bufs.get p = none → s.view.get p = s.disk.get p) ∧
     (∀ p, (s.w.idx.files.get p).isSome ↔
@@ -237,18 +238,34 @@ open HL.Workspace HL.WsDocs ExW in
     held in its disk version, while the client sees the buffer.  The repaired server holds the
     buffer. -/
 theorem pinned_didopen_stale_workspace_counterexample :
-    (drun false {} fsW esW).view.get "b.journal" = some (shop 2) ∧
-    held (drun false {} fsW esW).w "b.journal" = some (shop 1) ∧
-    held (drun true {} fsW esW).w "b.journal" = some (shop 2) := by
+    (drun { openDoc := false } {} fsW esW).view.get "b.journal" = some (shop 2) ∧
+    held (drun { openDoc := false } {} fsW esW).w "b.journal" = some (shop 1) ∧
+    held (drun {} {} fsW esW).w "b.journal" = some (shop 2) := by
+  decide
+
+open HL.Workspace HL.WsDocs ExW in
+/-- **pinned_didclose_stale_workspace_counterexample** (server.go before
+    fix-didclose-workspace.diff, `close := false`): b.journal is opened, changed without saving
+    and closed; the client sees the file on disk again, the pinned workspace kept the discarded
+    buffer.  The repaired server re-reads the file. -/
+theorem pinned_didclose_stale_workspace_counterexample :
+    let es : List Ev := [.openDoc "b.journal" (shop 1), .change "b.journal" (shop 2), .close "b.journal"]
+    (drun { close := false } {} fsW es).view.get "b.journal" = some (shop 1) ∧
+    (drun { close := false } {} fsW es).bufs.get "b.journal" = none ∧
+    held (drun { close := false } {} fsW es).w "b.journal" = some (shop 2) ∧
+    held (drun {} {} fsW es).w "b.journal" = some (shop 1) := by
   decide
 
 open HL.Workspace HL.WsDocs HL.Lemmas.WsDocs ExW in
 /-- the hypotheses of `workspace_follows_buffers` hold on that history (non-vacuity on the
     shape that used to fail), also when it goes on with a change and a save. -/
-example : calm {} (dstart {} fsW) (esW ++ [.change "b.journal" (shop 3), .save "b.journal"]) ∧
+example : calm {} (dstart {} fsW)
+      (esW ++ [.change "b.journal" (shop 3), .save "b.journal", .change "b.journal" (shop 4), .close "b.journal"]) ∧
     HL.Spec.Rebuild.fsOk fsW = true ∧ HL.Lemmas.Init.graphsClean {} fsW := by
   refine ⟨⟨⟨by decide, by decide, shop 1, by decide, by decide⟩,
-    ⟨by decide, by decide, shop 2, by decide, by decide⟩, trivial, trivial⟩, by decide, ?_⟩
+    ⟨by decide, by decide, shop 2, by decide, by decide⟩, trivial,
+    ⟨by decide, by decide, shop 3, by decide, by decide⟩,
+    ⟨by decide, shop 3, shop 4, by decide, by decide, by decide, by decide⟩, trivial⟩, by decide, ?_⟩
   unfold HL.Lemmas.Init.graphsClean; decide
 
 /-! ### Rename -/
